@@ -96,6 +96,12 @@ func genCase(t *rapid.T) Case {
 			c.Layers[0].Put("a", &vx.Node{K: "expr", Expr: []vx.Part{{Lit: "own"}, ref(rapid.SampledFrom([]string{"p", "b", "zz", "e2"}).Draw(t, "ar"))}})
 		}
 	}
+	// evaluation has no memo: bound the work of a case (see vx.Lighten)
+	trees := append(append([]*vx.Node{}, c.Layers...), c.Envs...)
+	if c.Later != nil {
+		trees = append(trees, c.Later.EnvLayers...)
+	}
+	vx.Lighten(20000, trees...)
 	return c
 }
 
